@@ -32,7 +32,9 @@ base (shared with C01.7) and memory / disk / cpu are compared against their
 own limits; C19.3 the excluded id is '<allocation>/<cell>' from the same
 rsrc_id split (data flow, not names) and update re-checks capacity
 unconditionally; C19.5 the per-trait loop has no early exit and consults
-exactly the limits whose trait is requested.
+exactly the limits whose trait is requested. Fourth round: C19.3 the
+accounting lists exactly {'cell', 'partition'} of the request,
+unconditionally, and every accepted request passed the per-trait accounting.
 Does NOT decide the sums over arbitrary reservation sets (arithmetic).
 """
 
